@@ -320,3 +320,55 @@ def resolve(cnf):
 
 def canon_sign_key(d):
     return pkey(canon_sign(d))
+
+
+# ----------------------------------------------------------------------------- propositional comparison of guard sets
+def _atom_of(p):
+    """(canonical atom, polarity) of a literal predicate: a literal and its negation share the atom"""
+    q = negate(p)
+    a, b = repr(p), repr(q)
+    return (p, True) if a <= b else (q, False)
+
+
+def prop_eval(f, val):
+    k = f[0]
+    if k == "and":
+        return all(prop_eval(x, val) for x in f[1])
+    if k == "or":
+        return any(prop_eval(x, val) for x in f[1])
+    if k == "const":
+        return bool(f[1])
+    a, pol = _atom_of(f)
+    return val[a] if pol else not val[a]
+
+
+def prop_atoms(f, out=None):
+    out = set() if out is None else out
+    if f[0] in ("and", "or"):
+        for x in f[1]:
+            prop_atoms(x, out)
+    elif f[0] != "const":
+        out.add(_atom_of(f)[0])
+    return out
+
+
+def prop_compare(got, want, max_atoms=10):
+    """Two formulas over literal predicates (nested ('and'|'or', frozenset) / literals), their atoms taken as independent
+    propositions: 'equal' when they agree on every valuation, 'different' (+ a separating valuation) when both use the same atoms
+    and disagree somewhere, 'unknown' when `got` mentions atoms `want` does not know (nothing can be said) or there are too many."""
+    ag, aw = prop_atoms(got), prop_atoms(want)
+    atoms = sorted(ag | aw, key=repr)
+    if len(atoms) > max_atoms:
+        return "unknown", "too many atoms"
+    import itertools
+    diff = None
+    for bits in itertools.product([False, True], repeat=len(atoms)):
+        val = dict(zip(atoms, bits))
+        if prop_eval(got, val) != prop_eval(want, val):
+            diff = val
+            break
+    if diff is None:
+        return "equal", None
+    if ag <= aw:
+        return "different", {pred_fmt(a): v for a, v in diff.items()}
+    return "unknown", "conditions outside the documented ones: %s" % sorted(pred_fmt(a) for a in ag - aw)[:3]
